@@ -1,4 +1,4 @@
-"""Registry: property id -> engine, budgets."""
+"""Registry: property id -> engine, budgets, manifest texts."""
 from . import e3_entry
 
 
@@ -6,11 +6,57 @@ def _budget(batches, examples, wall_s):
     return {"batches": batches, "examples": examples, "wall_s": wall_s}
 
 
+_LEVEL_NOTE = (
+    "Trusted base: CPython 3.12, Hypothesis 6.168 (generation + shrinking), the reference "
+    "models in sim/ref.py (cross-checked against the package evaluator on every object), the "
+    "SimSet instrumentation (guarded by the policy-0 vs plain-import differential and the "
+    "fresh-process sweep). Sampling, not proof: a clean run is evidence within the stated bounds."
+)
+
 PROPS = {
     "C16": {
         "id": "C16",
         "engine": e3_entry,
-        "quick": _budget(32, 150, 60),
-        "thorough": _budget(160, 400, 600),
+        "quick": _budget(64, 300, 60),
+        "thorough": _budget(640, 600, 600),
+        "technique": "deterministic simulation: seeded histories of offers/reads/combines on shared "
+                     "entries and table cells under simulator-chosen set iteration orders, checked "
+                     "operation by operation against a list-of-offers reference model",
+        "level_text": "Seeded search over update/read/combine histories (the property's own "
+                      "quantifier) with every iteration order of the retained-tag sets decided by "
+                      "the simulator; each operation is compared with an executable reference "
+                      "model. Exploration is the right level: the state space is small but "
+                      "unbounded in history length, and the hazards are order- and history-"
+                      "dependent.",
+        "design_ref": "DESIGN.md section 6 (C16), section 5 (E3)",
+        "level_note": _LEVEL_NOTE,
     },
 }
+
+NOT_APPLICABLE = {
+    "C06": "pure function of a frozen value (node_event/_cost_rec/labeling cost): no schedule, order, "
+           "stream, clock or history can affect it, so deterministic simulation has nothing to "
+           "decide; its CLI sentence ('Minimum cost:' equals the recount) is decided inside C12 "
+           "and every solver check compares cost() with the independent recount",
+    "C07": "reconcile_lca is a pure post-order fold over immutable inputs: no interleaving, order, "
+           "fault or history dimension exists in its anchored code; it runs inside C10/C12 "
+           "histories only as a participant",
+    "C11": "to_dict/from_dict round trip is a pure in-memory function; the only place serialised "
+           "results cross a simulator-owned boundary is the CLI file hand-off, decided inside C12",
+    "C17": "LCA / range-minimum queries read an immutable precomputed table: no container order, "
+           "history, stream or clock is involved; bounded-exhaustive testing is the right family",
+    "C18": "four pure functions on integers and sequences: nothing to schedule or fault",
+}
+
+# properties the design claims but whose engine is not built yet (kept honest in MANIFEST)
+PENDING = {
+    pid: "claimed in DESIGN.md; check under construction in this round (engine not registered yet)"
+    for pid in ("C01", "C02", "C03", "C04", "C05", "C08", "C09", "C10", "C12", "C13", "C14",
+                "C15", "C19", "C20")
+    if pid not in PROPS
+}
+
+ENGINES = [
+    {"name": "E3-dp-entry", "path": "sim/e3_entry.py", "serves_properties": ["C16"],
+     "kind_free_text": "history machine over Entry/Table cells with list-of-offers oracle"},
+]
